@@ -768,13 +768,17 @@ class BlobStorage(BlobStorageMixin):
         return '<BlobStorage proxy for {!r} at {}>'.format(normal_storage,
                                                            hex(id(self)))
 
-    def tpc_finish(self, *arg, **kw):
+    def tpc_finish(self, transaction, func=lambda tid: None):
         # We need to override the base storage's tpc_finish instead of
         # providing a _finish method because methods found on the proxied
         # object aren't rebound to the proxy
-        tid = self.__storage.tpc_finish(*arg, **kw)
-        self._blob_tpc_finish()
-        return tid
+        def finished(tid):
+            func(tid)
+            # Forget the blobs of this transaction while the base storage
+            # still holds the commit lock: once it is released another
+            # transaction may begin, and its abort removes what is listed.
+            self._blob_tpc_finish()
+        return self.__storage.tpc_finish(transaction, finished)
 
     def tpc_abort(self, *arg, **kw):
         # We need to override the base storage's abort instead of
